@@ -29,6 +29,10 @@ pub struct GenCfg {
     /// never remove/overwrite a stream (or an ancestor) that has an open handle
     pub protect_handles: bool,
     pub max_stream: u64,
+    /// structural removals only while no handle is open (keeps C07's subject out of other checks)
+    pub no_remove_with_open_handles: bool,
+    /// set_len through a handle never grows the stream
+    pub set_len_shrink_only: bool,
 }
 
 pub fn draw_sizes(rng: &mut Rng, max_stream: u64, sector: u64) -> Vec<u64> {
@@ -187,7 +191,7 @@ impl<'a> Gen<'a> {
         }
         // path or anything below it has an open handle
         for (p, is_stream) in self.model.all_paths() {
-            if is_stream && p.len() >= path.len() && p[..path.len()] == path[..] {
+            if is_stream && p.len() >= path.len() && p[..path.len()].iter().zip(path.iter()).all(|(a, b)| names::cfb_eq(a, b)) {
                 if let Some(n) = self.model.lookup(&p) {
                     if self.model.has_handle_on(n.id) {
                         return true;
@@ -548,6 +552,7 @@ impl<'a> Gen<'a> {
                                 (b + self.rng.range(0, 2)).saturating_sub(1).min(self.cfg.max_stream)
                             }
                         };
+                        let n = if self.cfg.set_len_shrink_only { n.min(len) } else { n };
                         Op::HSetLen { h, n }
                     }
                     "h_flush" => Op::HFlush { h },
@@ -559,6 +564,22 @@ impl<'a> Gen<'a> {
             }
             _ => return None,
         };
+        // never a second handle on a stream that already has one (outside every statement)
+        if let Op::HOpen { path, .. } | Op::HCreate { path, .. } | Op::HCreateNew { path, .. } = &op {
+            if let Ok(names) = crate::model::parse_path(path) {
+                if let Some(n) = self.model.lookup(&names) {
+                    if n.is_stream && self.model.has_handle_on(n.id) {
+                        return None;
+                    }
+                }
+            }
+        }
+        if self.cfg.no_remove_with_open_handles
+            && !self.open_handles().is_empty()
+            && matches!(op, Op::RemoveStorage(_) | Op::RemoveStorageAll(_) | Op::RemoveStream(_))
+        {
+            return None;
+        }
         // protection: never remove / overwrite something with an open handle
         if self.cfg.protect_handles {
             let victim: Option<&String> = match &op {
@@ -637,6 +658,9 @@ impl<'a> Gen<'a> {
         while ops.len() < n && guard < n * 20 {
             guard += 1;
             if let Some(op) = self.gen_op() {
+                if std::env::var("VERIF_GENTRACE").is_ok() {
+                    eprintln!("gen: {}", op.to_json());
+                }
                 self.model.predict(&op);
                 ops.push(op);
             }
